@@ -133,6 +133,19 @@ Theorem C06_upgrade_response_status : forall st f, (0 <= st <= 999)%Z ->
 Proof. exact format_parse_response. Qed.
 Print Assumptions C06_upgrade_response_status.
 
+(* Emitting a request does not change it (the translation works on copies): the live request has the same fields
+   afterwards, hence a second emission of the same flow (client replay) writes the same header list -- same :authority
+   and host -- as the first.  The correspondence cases EmitTwice / EmitH1State compare exactly this state and the second
+   emission on the real objects. *)
+Theorem C06_emission_pure : forall n v m s a p f,
+  snd (emit_request n v m s a p f) = f
+  /\ fst (emit_request n v m s a p (snd (emit_request n v m s a p f))) = fst (emit_request n v m s a p f).
+Proof. exact emission_pure. Qed.
+Print Assumptions C06_emission_pure.
+Theorem C06_emission_h1_pure : forall r, snd (emit_h1_request r) = hq_fields r.
+Proof. exact emission_h1_pure. Qed.
+Print Assumptions C06_emission_h1_pure.
+
 (* the hypotheses of the request theorem are satisfiable on a non-trivial value: POST, two cookies (joined on the
    wire), a body that looks like a request, announced by content-length *)
 Theorem C06_nonvacuous :
